@@ -13,3 +13,43 @@ def entry(*names):
             TABLE[n] = f
         return f
     return d
+
+
+def _ptest(kind):
+    def h(I, ins, args, cond):
+        a, b = args
+        w = a[1]
+        if kind == "z":
+            c = T.icmp("eq", T.and_(a, b), T.const(w, 0))
+        elif kind == "c":
+            c = T.icmp("eq", T.and_(T.not_(a), b), T.const(w, 0))
+        else:
+            c = T.and_(T.icmp("ne", T.and_(a, b), T.const(w, 0)),
+                       T.icmp("ne", T.and_(T.not_(a), b), T.const(w, 0)))
+        return T.zext(c, 32)
+    return h
+
+
+# SDM PTEST: ZF = ((SRC AND DEST) == 0), CF = ((SRC AND NOT DEST) == 0)
+for _p in ("llvm.x86.sse41.ptest", "llvm.x86.avx.ptest"):
+    for _k in ("z", "c", "nzc"):
+        TABLE[_p + _k] = _ptest(_k)
+        TABLE[_p + _k + ".256"] = _ptest(_k)
+
+
+def _blendv(eb):
+    # SDM (V)BLENDVPS/PD, PBLENDVB: IF mask[i].msb THEN src2[i] ELSE src1[i]
+    def h(I, ins, args, cond):
+        a, b, m = args
+        n = a[1] // eb
+        return T.concat([T.select(T.slice_(m, i * eb + eb - 1, 1), T.slice_(b, i * eb, eb), T.slice_(a, i * eb, eb))
+                         for i in range(n)])
+    return h
+
+
+TABLE["llvm.x86.sse41.blendvps"] = _blendv(32)
+TABLE["llvm.x86.sse41.blendvpd"] = _blendv(64)
+TABLE["llvm.x86.sse41.pblendvb"] = _blendv(8)
+TABLE["llvm.x86.avx.blendv.ps.256"] = _blendv(32)
+TABLE["llvm.x86.avx.blendv.pd.256"] = _blendv(64)
+TABLE["llvm.x86.avx2.pblendvb"] = _blendv(8)
